@@ -1,11 +1,11 @@
-\* named deviation SizeBeforeScripts: must be refuted
+\* named deviation SizeBeforeScripts: must be refuted by the abstract invariants
 SPECIFICATION Spec
 CONSTANTS
-  Kinds = {"tx", "block", "header", "stateroot", "extensible", "consensus", "notaryreq", "aer", "nef", "manifest", "contract", "mptnode", "rule", "item"}
+  Kinds = {"tx", "block", "header", "stateroot", "extensible", "consensus", "notaryreq", "aer", "nef", "manifest", "contract", "mptnode", "rule", "signer", "item"}
   K = 3
   Dev = {"SizeBeforeScripts"}
   Quirks = {}
   Origins = {"canon", "nc-signed", "nc-unsigned"}
   Mode = "mc"
-INVARIANTS TypeOK PathIndependent SizeExact NoRefusal Confluent
+INVARIANTS PathIndependent SizeExact NoRefusal Confluent
 CHECK_DEADLOCK FALSE
